@@ -255,6 +255,7 @@ type api[N any] struct {
 	replace      func(old, new int) error
 	each         func(func(int))
 	first, last  func() int // nil: the list has no First/Last
+	mk           func(int) *N // a node of the right type that belongs to no list
 }
 
 func slistAPI() api[list.SingleNode[int]] {
@@ -263,6 +264,7 @@ func slistAPI() api[list.SingleNode[int]] {
 		name: "SList", unshift: l.Unshift, append: l.Append, shift: l.Shift, pop: l.Pop,
 		find: l.Find, val: func(n *list.SingleNode[int]) int { return n.Value },
 		insertAfter: l.InsertAfter, del: l.Delete, replace: l.Replace, each: l.Each,
+		mk: func(v int) *list.SingleNode[int] { return &list.SingleNode[int]{Value: v} },
 	}
 }
 
@@ -274,6 +276,7 @@ func dlistAPI() api[list.DoubleNode[int]] {
 		find: l.Find, val: func(n *list.DoubleNode[int]) int { return n.Value },
 		insertAfter: l.InsertAfter, insertBefore: l.InsertBefore, del: l.Delete, replace: l.Replace, each: l.Each,
 		first: l.First, last: l.Last,
+		mk: func(v int) *list.DoubleNode[int] { return &list.DoubleNode[int]{Value: v} },
 	}
 }
 
@@ -588,6 +591,13 @@ func (x *run[N]) step(op Op, val int, tail bool) error {
 			x.hist = append(x.hist, d)
 			wantErr = "a nil node"
 			x.label("nil handle")
+			if len(x.hist)%2 == 0 {
+				// every other time: a node that belongs to no list and whose value is absent from this one ("returns an
+				// error in case the requested node does not exist"): refused, nothing changes
+				h = x.a.mk(absentVal)
+				wantErr = "a node that is not in the list (no element has its value)"
+				x.label("foreign node with an absent value")
+			}
 		} else {
 			d.at = x.model[p]
 			x.hist = append(x.hist, d)
